@@ -192,6 +192,10 @@ impl Env {
             *self.faults_planned.entry("chunked_writes(process)".into()).or_insert(0) += 1;
         }
         let before = world.snapshot();
+        let mut spec = spec;
+        if spec.jail.is_none() {
+            spec.jail = Some(world.root.to_string_lossy().into_owned());
+        }
         let res = process::run(cwd, spec, call);
         let _ = std::env::set_current_dir("/");
         let after = world.snapshot();
